@@ -30,7 +30,7 @@ import vcommon as V, circ, designgen as G
 
 CID = "C10"
 WORK = V.BUILD / "work" / CID
-HANDS = ["h_areafam0", "h_areafam1", "h_areafam2", "h_areafam3", "h_clockfam0", "h_clockfam1", "h_clockfam2", "h_clockfam3", "h_mem_rmw", "h_mem_condwrite", "h_mem_multi", "h_mem_wrorder", "h_retime_enable", "h_retime_intersect", "h_retime_hint", "h_negreg",
+HANDS = ["h_default0", "h_default1", "h_default2", "h_areafam0", "h_areafam1", "h_areafam2", "h_areafam3", "h_clockfam0", "h_clockfam1", "h_clockfam2", "h_clockfam3", "h_mem_rmw", "h_mem_condwrite", "h_mem_multi", "h_mem_wrorder", "h_retime_enable", "h_retime_intersect", "h_retime_hint", "h_negreg",
          "h_hier_partition", "h_hier_entity", "h_small_hier", "h_multiclock", "h_fifo", "h_dcfifo", "h_wide_logic"]
 OMODES = ["single", "entity", "partition"]
 TOOLS = ["default", "ghdl", "vivado", "quartus"]
@@ -261,6 +261,104 @@ def audit_ordering_operators(repo):
     return dict(operators=found, findings=sorted(set(findings)))
 
 
+# ---------------------------------------------------------------------------------------------------
+# Which post-processing passes can see the node storage order, and does the permutation family contain a design on
+# which a pass's result depends on its visiting order?  Three independent sources per pass:
+#   iterates   HEURISTIC regex scan of the pass's definition in the current source: storage list (m_nodes /
+#              getNodes()), id-ordered subnet / stable container, or neither
+#   fired / differs   measured with the pass-boundary hook H1: id-free structural fingerprint of the circuit after
+#              every pass in the unpermuted and in every permuted construction
+#   shape      a hand maintained table of shapes known to make the pass's result depend on visiting order, with a
+#              detector evaluated on this run's designs; passes without an entry are listed as "none identified"
+# ---------------------------------------------------------------------------------------------------
+ORDER_SENSITIVE_SHAPES = {
+    "defaultValueResolution": ("two or more Node_Default nodes on one signal loop (several defaults on one never driven signal): the one "
+                               "visited first sees the loop and wins", lambda ai: ai.get("defaults_chained", 0) >= 2),
+}
+
+
+def scan_pass_iteration(repo, names):
+    src = {}
+    for root, _, files in os.walk(os.path.join(str(repo), "source", "gatery", "hlim")):
+        for f in files:
+            if f.endswith(".cpp"):
+                try:
+                    src[os.path.join(root, f)] = _strip_comments(open(os.path.join(root, f), errors="replace").read())
+                except OSError:
+                    pass
+    res = {}
+    for n in names:
+        kinds, where = set(), None
+        for p, t in src.items():
+            for m in re.finditer(r"\b(?:\w+::)?" + re.escape(n) + r"\s*\(([^;{}]*)\)\s*(?:const\s*)?\{", t):
+                end = _balanced(t, m.end() - 1)
+                body = t[m.end():end - 1]
+                where = os.path.relpath(p, str(repo))
+                if re.search(r"\bm_nodes\b|getNodes\s*\(\s*\)", body):
+                    kinds.add("node storage list")
+                if re.search(r":\s*\*?\s*\w*[sS]ubnet\b|\b[sS]ubnet\w*\.(?:begin|getNodes)|Subnet::all", body):
+                    kinds.add("subnet (id ordered)")
+                if re.search(r"anyOrder\s*\(", body):
+                    kinds.add("anyOrder()")
+        res[n] = dict(iterates=sorted(kinds) if kinds else (["neither / delegated"] if where else ["definition not found"]), defined_in=where)
+    return res
+
+
+def pass_table(out, designs, ref, shuffled, repo):
+    def load(d, t):
+        rows = []
+        try:
+            for line in open(out / t / d / "passes.txt"):
+                p = line.split()
+                if len(p) >= 4:
+                    rows.append((p[1], p[2]))
+        except OSError:
+            pass
+        return rows
+    fired, differs, seen, order = {}, {}, {}, []
+    ndes = 0
+    for d in designs:
+        r0 = load(d, ref)
+        if not r0:
+            continue
+        ndes += 1
+        f_here = set()
+        for i, (nm, fp) in enumerate(r0):
+            pn = nm.split(":", 1)[-1]
+            if pn not in seen:
+                seen[pn] = 0; order.append(pn)
+            if i > 0 and fp != r0[i - 1][1]:
+                f_here.add(pn)
+        for pn in {nm.split(":", 1)[-1] for nm, _ in r0}:
+            seen[pn] += 1
+        for pn in f_here:
+            fired[pn] = fired.get(pn, 0) + 1
+        d_here = set()
+        for s in shuffled:
+            rs = load(d, s)
+            for i, ((n0, f0), (n1, f1)) in enumerate(zip(r0, rs)):
+                if n0 != n1:
+                    break
+                if f0 != f1:
+                    d_here.add(n0.split(":", 1)[-1])     # first boundary at which the permuted construction differs structurally
+                    break
+        for pn in d_here:
+            differs[pn] = differs.get(pn, 0) + 1
+    names = [n for n in order if n not in ("begin", "end")]
+    stat = scan_pass_iteration(repo, names)
+    infos = {d: addr_info(out / ref / d) for d in designs}
+    table = []
+    for n in names:
+        shp = ORDER_SENSITIVE_SHAPES.get(n)
+        present = sum(1 for d in designs if shp[1](infos[d])) if shp else None
+        table.append(dict(**{"pass": n}, iterates_static_heuristic=stat[n]["iterates"], defined_in=stat[n]["defined_in"], designs_run=seen.get(n, 0),
+                          changed_the_circuit_in_designs=fired.get(n, 0),
+                          first_structural_difference_between_permutations_in_designs=differs.get(n, 0),
+                          known_order_sensitive_shape=shp[0] if shp else "none identified",
+                          shape_present="n/a" if shp is None else ("yes" if present else "no"), shape_present_in_designs=present))
+    return table, ndes
+
+
 def have_setarch():
     try:
         return subprocess.run(["setarch", "-R", "true"], capture_output=True).returncode == 0
@@ -301,6 +399,8 @@ def gen_programs(seed, n):
         progs.append(gen_clockfam(seed, i))
     for i in range(max(6, n // 4)):
         progs.append(gen_areafam(seed, i))
+    for i in range(max(8, n // 4)):
+        progs.append(gen_defaultfam(seed, i))
     return progs
 
 
@@ -418,6 +518,55 @@ def gen_areafam(seed, i):
     return (did, L, ["areafam"])
 
 
+def gen_defaultfam(seed, i):
+    """Design family for default values (Node_Default): never driven bits / vectors with one, two or three defaults of
+    different values on the SAME signal object, read before and after, overridden unconditionally (dead default) or
+    conditionally, before or after the second default, default taken from another signal; in the root or in entities."""
+    import random
+    r = random.Random(seed * 1100003 + i)
+    did = f"d{i}"
+    L = [f"design {did}", f"omode {OMODES[i % 2]}", f"tool {TOOLS[(i // 2) % 4]}", "inb a", "inb b", "in x 2"]
+    outs = 0
+    for j in range(r.choice([2, 3, 3, 4, 5])):
+        wrap = r.random() < 0.35
+        if wrap:
+            L.append(f"area e{j} entity")
+        vec = r.random() < 0.3
+        n = f"s{j}"
+        vals = r.sample(["0", "1", "2", "3"], 3) if vec else [r.choice("01")]
+        if not vec:
+            vals += ["1" if vals[0] == "0" else "0", vals[0]]
+        L.append(f"defu {n} 2 {vals[0]}" if vec else f"defb {n} {vals[0]}")
+        if r.random() < 0.5:
+            L.append(f"var {n}_early {n}")
+        k = r.random()
+        steps = []
+        if k < 0.55:
+            steps.append(f"defagain {n} {vals[1]}")               # two defaults on one signal
+            if r.random() < 0.3:
+                steps.append(f"defagain {n} {vals[2]}")           # three
+        elif k < 0.7:
+            steps.append(f"defsig {n} " + ("x" if vec else "b"))
+            steps.append(f"defagain {n} {vals[1]}")
+        cond = ["if a", f"set {n} " + ("x" if vec else "b"), "endif"]
+        m = r.random()
+        if m < 0.3:
+            steps = steps[:1] + cond + steps[1:]                   # conditional override between the defaults
+        elif m < 0.5:
+            steps = steps + cond                                   # ... after them
+        elif m < 0.6:
+            steps = steps + [f"set {n} " + ("x" if vec else "b")]  # unconditional: every default is dead
+        L += steps
+        L.append(f"out o{outs} {n}"); outs += 1
+        if any(l == f"var {n}_early {n}" for l in L):
+            L.append(f"out o{outs} {n}_early"); outs += 1
+        if not vec and r.random() < 0.5:
+            L += [f"reg q{j} x en {n}", f"out o{outs} q{j}"]; outs += 1
+        if wrap:
+            L.append("endarea")
+    return (did, L, ["defaultfam"])
+
+
 def sha(path):
     h = hashlib.sha256()
     with open(path, "rb") as f:
@@ -435,7 +584,7 @@ def tree(d):
         for f in files:
             p = os.path.join(root, f)
             rel = os.path.relpath(p, d)
-            if rel == "addr.txt":
+            if rel in ("addr.txt", "passes.txt"):
                 continue
             res[rel] = sha(p)
     return res
@@ -504,6 +653,8 @@ def addr_info(d):
                 info["clocks"] = int(p[1]); info["clock_inversions"] = int(p[3])
             elif p[0] == "clockorder":
                 info["clockorder"] = p[1:]
+            elif p[0] == "defaults":
+                info["defaults"] = int(p[1]); info["defaults_chained"] = int(p[3])
             elif p[0] == "vhdlentities":
                 info["vhdlentities"] = int(p[1]); info["entityrank"] = p[3:]
             elif p[0] == "vhdlblocks":
@@ -551,7 +702,7 @@ def main():
     setarch = have_setarch()
 
     # ---- designs -------------------------------------------------------------------------------
-    ngen = 900 if thorough else 40
+    ngen = 800 if thorough else 32
     nbuilds = 5 if thorough else 4
     nshuffle = 5 if thorough else 3
     cycles = 24 if thorough else 12
@@ -629,7 +780,8 @@ def main():
                                         heap=HEAP_MODES[b] if b < len(HEAP_MODES) else HEAP_MODES[1])
         if c[0] == "p0":
             for s in range(1, nshuffle + 1):
-                recipe[f"p0.s{s}"] = dict(process=c[5], command=pr["cmd"], shuffles=s, heap=HEAP_MODES[s % 5])
+                recipe[f"p0.s{s}"] = dict(process=c[5], command=pr["cmd"], heap=HEAP_MODES[s % 5],
+                                          node_storage_order="Circuit::shuffleNodes()" if s == 1 else "reversed" if s == 2 else f"random permutation (variant {s})")
 
     ref = "p0.0"
     builds = [f"{c[0]}.{b}" for c in cfgs for b in range(nbuilds) if f"{c[0]}.{b}" != ref]
@@ -707,11 +859,11 @@ def main():
             if ("SKIP" in rt) != ("SKIP" in stt):
                 viol.append(("design could be constructed only with / only without shuffleNodes()", d, ref, s, "SKIP", dict(a=rt.get("SKIP"), b=stt.get("SKIP"))))
                 continue
-            for n in ("sim.trace", "tb.trace"):
+            for n in ("sim.trace", "tb.trace", "export/testbench.testvectors"):
                 if n in rt or n in stt:
                     shuf_trace_cmp += 1
                     if rt.get(n) != stt.get(n):
-                        viol.append(("simulation trace changes when the node storage order is shuffled before post-processing", d, ref, s, n,
+                        viol.append(("simulation trace / recorded test vectors change when the node storage order is permuted before post-processing", d, ref, s, n,
                                      first_diff(str(out / ref / d / n), str(sd / n))))
             ex_r = {k: v for k, v in rt.items() if k.startswith("export/")}
             ex_s = {k: v for k, v in stt.items() if k.startswith("export/")}
@@ -849,6 +1001,8 @@ def main():
     rep.cov["programs"] = len(designs)
     rep.cov["designs_generated"] = len([1 for d in designs if d.startswith("g")])
     rep.cov["designs_generated_clock_family"] = len([1 for d in designs if d.startswith("k")])
+    rep.cov["designs_generated_default_value_family"] = len([1 for d in designs if re.match(r"d\d+$", d)])
+    rep.cov["designs_with_two_or_more_defaults_on_one_signal"] = sum(1 for d in designs if addr_info(out / ref / d).get("defaults_chained", 0) >= 2)
     rep.cov["designs_generated_area_block_family"] = len([1 for d in designs if re.match(r"a\d+$", d)])
     rep.cov["designs_hand_written"] = len(hands)
     rep.cov["designs_corpus"] = len([1 for d in designs if d.startswith("c_")])
@@ -887,6 +1041,17 @@ def main():
     rep.cov["designs_outside_single_clock_model_multiclock_or_memory"] = model_skipped_multiclock
     rep.cov["disagreements_checked"] = len(cert_fail)
     rep.cov["wall_s_harness_processes"] = round(t_run, 1)
+    ptab, pdes = pass_table(out, designs, ref, shuffled, V.REPO)
+    rep.cov["postprocessing_passes"] = dict(
+        explanation="per pass of DefaultPostprocessing (names from the pass-boundary hook): whether its definition iterates the node storage list or an id-ordered "
+                    "subnet (regex heuristic on the current source), in how many designs of the permutation family it changed the circuit, in how many designs the "
+                    "FIRST structural difference (id-free fingerprint) between the unpermuted and a permuted construction appears right after it, and whether a "
+                    "shape KNOWN to make its result depend on the visiting order is present. `none identified` + 0 differences = nothing in this check would notice "
+                    "an order dependence of that pass unless it changes a trace.",
+        designs_with_pass_records=pdes, permutations=["Circuit::shuffleNodes()", "reversed"] + [f"random {k}" for k in range(3, len(shuffled) + 1)],
+        passes=ptab)
+    rep.cov["passes_iterating_the_node_storage_list"] = [r["pass"] for r in ptab if "node storage list" in r["iterates_static_heuristic"]]
+    rep.cov["passes_with_known_order_sensitive_shape_present"] = [r["pass"] for r in ptab if r["shape_present"] == "yes"]
     rep.cov["comparator_audit"] = dict(rule="static scan of every StableCompare<> specialisation (+ stableCompareWithId/stableCompareNodes) of the current tree: "
                                             "pointers only in nullptr tests, ->getId() or as arguments of another stable comparator; no std::tie/std::less/<=>/integer casts",
                                        definitions_scanned=audit["comparators"], findings=audit["findings"])
